@@ -238,6 +238,13 @@ WRAPS = [
     ("wrap-mphantom", lambda k: el("mphantom", k)),
 ]
 
+INSERTS = [
+    ("ins-emptybase-sup", lambda: el("msup", T("mrow"), mn("2"))),
+    ("ins-emptybase-sub", lambda: el("msub", T("mrow"), mn("1"))),
+    ("ins-emptybase-subsup", lambda: el("msubsup", T("mrow"), mn("1"), mn("2"))),
+    ("ins-mspace", lambda: T("mspace", width="0.5em")),
+]
+
 ATTRS = [
     ("id", "author7"), ("mathvariant", "bold"), ("form", "prefix"), ("intent", "foo"), ("arg", "a"),
     ("width", "2em"), ("open", "<"), ("data-changed", "added"), ("class", "MJX-x"),
@@ -269,14 +276,36 @@ def deviations(t):
         c = t.copy()
         c.at(ppath).kids.insert(idx, node.copy())
         yield f"dup@{where}", c
-        for wn, w in WRAPS:
-            c = t.copy()
-            c.at(ppath).kids[idx] = w(node.copy())
-            yield f"{wn}@{where}", c
+        parent_is_token = t.at(ppath).tag in LEAVES
+        if node.tag not in ("mprescripts", "none") and not parent_is_token:
+            # (a wrapped <mprescripts/>/<none/> or a wrapper inside a token is not well-formed MathML)
+            for wn, w in WRAPS:
+                c = t.copy()
+                c.at(ppath).kids[idx] = w(node.copy())
+                yield f"{wn}@{where}", c
         for an, av in ATTRS:
             c = t.copy()
             c.at(path).attrs[an] = av
             yield f"attr-{an}@{where}", c
+    # insertions: a degenerate sibling after each child of a row-like node (TeX "{}^2", "{}_1", stray space)
+    for path, node in list(t.walk()):
+        if node.tag in ("mrow", "msqrt", "mtd", "mstyle", "math", "mpadded", "menclose", "merror"):
+            where = "/".join(map(str, path)) or "root"
+            for idx in range(len(node.kids) + 1):
+                for iname, mk in INSERTS:
+                    c = t.copy()
+                    c.at(path).kids.insert(idx, mk())
+                    yield f"{iname}@{where}:{idx}", c
+    # one deviation = the same wrapper around *every* child of one node (what a converter emits for
+    # \frac{\color{red}a}{\color{red}b})
+    for path, node in list(t.walk()):
+        if len(node.kids) >= 2 and node.tag not in LEAVES and all(k.tag not in ("mprescripts", "none", "mtr", "mtd", "mlabeledtr") for k in node.kids):
+            where = "/".join(map(str, path)) or "root"
+            for wn, w in WRAPS[:3]:
+                c = t.copy()
+                n = c.at(path)
+                n.kids = [w(k) for k in n.kids]
+                yield f"all-{wn}@{where}", c
 
 
 # ---------------------------------------------------------------------------------------------
